@@ -272,3 +272,77 @@ def c12_one_resolves(run):
                            signature="WFSA.one:" + kind)
         except I.OutOfSubset as e:
             run.obligation(name, "out-of-subset", detail=str(e))
+
+
+def c01_boolean_conversion(run):
+    """C01/cfglm.BoolCFGLM.__init__/boolean-model: whatever the input's semiring and whether or not it already carries EOS, the
+    grammar handed to the parser is Boolean-weighted (positivity is decided before any float arithmetic can lose a weight)."""
+    name = "C01/cfglm.BoolCFGLM.__init__/boolean-model"
+    rel = "genlm/grammar/cfglm.py"
+    init = source.find(rel, "BoolCFGLM.__init__")
+    problems = []
+    n = 0
+    for alg in ("earley", "cky"):
+        for has_eos in (False, True):
+            for is_bool in (False, True):
+                seen = []
+                boolean = Bag()
+                other = Bag()
+                EOS = S.sym("EOS")
+
+                class CfgTok:
+                    def __init__(self, R, eos, tag):
+                        self.R, self.eos, self.tag = R, eos, tag
+
+                    def __pyvc_getattr__(self, interp, nm, node):
+                        if nm == "V":
+                            return VTok(self.eos)
+                        if nm == "R":
+                            return self.R
+                        if nm == "map_values":
+                            def mv(i2, a, k):
+                                R2 = a[1] if len(a) > 1 else k.get("R")
+                                return CfgTok(R2, self.eos, self.tag + "+map_values")
+                            return I.Native("map_values", mv)
+                        return CfgTok(self.R, self.eos, self.tag + "." + nm)      # cnf / prefix_grammar keep the semiring
+
+                class VTok:
+                    def __init__(self, eos):
+                        self.eos = eos
+
+                    def __pyvc_contains__(self, interp, x):
+                        return self.eos
+
+                def parser(cls):
+                    def f(i2, a, k):
+                        seen.append((cls, a[0].R if isinstance(a[0], CfgTok) else None))
+                        return Instance(MODULE_FILES.get("genlm.grammar.parse." + ("earley" if cls == "Earley" else "cky"), rel), cls, [])
+                    return I.Native(cls, f)
+
+                it = I.Interp(I.Path([]))
+                it.natives["genlm.grammar.parse.earley.Earley"] = parser("Earley")
+                it.natives["genlm.grammar.parse.cky.CKYLM"] = parser("CKYLM")
+                it.natives["genlm.grammar.parse.cky.IncrementalCKY"] = parser("IncrementalCKY")
+                g = {"EOS": EOS, "Boolean": boolean, "add_EOS": I.Native("add_EOS", lambda i2, a, k: CfgTok(a[0].R, True, a[0].tag + "+add_EOS")),
+                     "ValueError": "ValueError"}
+                for ch in source.module_ast(rel).body:
+                    if isinstance(ch, ast.ClassDef) and ch.name != "BoolCFGLM":
+                        g[ch.name] = I.Native(ch.name, lambda i2, a, k, nm=ch.name: Instance(rel, nm, []))
+                lm_init = source.find("genlm/grammar/lm.py", "LM.__init__")
+                cls_lm = I.ClassObj("LM", [], "lm")
+                cls_lm.attrs["__init__"] = I.FuncObj(lm_init, I.Env(None, {}), "LM.__init__", "func", cls_lm)
+                cls_b = I.ClassObj("BoolCFGLM", [cls_lm], "cfglm")
+                o = I.Obj(cls_b)
+                try:
+                    it.call_func(I.FuncObj(init, I.Env(None, g), "BoolCFGLM.__init__", "func", cls_b), [o, CfgTok(boolean if is_bool else other, has_eos, "cfg")], {"alg": alg})
+                except (I.PyRaise, I.OutOfSubset) as e:
+                    run.obligation(name, "out-of-subset", detail=str(e))
+                    return
+                n += 1
+                if not seen or any(R is not boolean for _, R in seen):
+                    problems.append(f"alg={alg}, EOS already in V: {has_eos}, input Boolean: {is_bool}: parser built over a non-Boolean grammar")
+    if problems:
+        run.obligation(name, "refuted", backend="pyvc", detail=problems[0], model={"problems": problems},
+                       replay=dict(replayed=False, problems=problems, hint="BoolCFGLM(add_EOS(g)) with Float weights such as 1e-200"), signature="BoolCFGLM:boolean-model")
+    else:
+        run.obligation(name, "proved", backend="pyvc", detail=f"{n} configurations (alg x EOS-present x Boolean-input): the parser always receives a Boolean-weighted grammar")
